@@ -326,6 +326,42 @@ PolicySkip(o, k) ==
   \/ k \in Bools /\ o.in \cap (Ints \cup Floats) # {}                     \* bool where a number is documented
   \/ k \in Ints /\ o.in \cap Floats # {} /\ o.in \cap Ints = {}           \* int where a float is documented
 
+\* the kind of value a default token denotes (tokens without an entry are not kind-checked)
+DefKind ==
+     "False" :> "bool_false" @@ "True" :> "bool_true" @@ "None" :> "none" @@ "n:0" :> "int_zero" @@ "n:1" :> "int_one"
+  @@ "n:2" :> "int_two" @@ "n:3" :> "int_pos" @@ "n:4" :> "int_pos" @@ "n:5" :> "int_pos" @@ "n:10" :> "int_pos"
+  @@ "n:80" :> "int_pos" @@ "n:1000" :> "int_pos" @@ "n:0.2" :> "float_frac" @@ "n:0.5" :> "float_frac"
+  @@ "n:1e-12" :> "float_frac" @@ "s:" :> "str_empty" @@ "s:," :> "str_comma" @@ "s:err" :> "enum_err"
+  @@ "pct:0.01" :> "pct_ok" @@ "pct:5" :> "pct_ok" @@ "list_empty" :> "list_empty" @@ "dict_empty" :> "dict_empty"
+  @@ "range:1:3" :> "list_int12" @@ "range:1:5" :> "list_int12" @@ "range:0:1.5708" :> "list_float2"
+  @@ "shape:3" :> "tuple_int1" @@ "shape:2,2" :> "tuple_int2" @@ "RealInterval:1:5" :> "sampler_real"
+  @@ "asm:True:type" :> "dict_asm" @@ "interval_subgrader" :> "grader_numerical" @@ "answers_empty" :> "list_empty"
+  @@ "s:Your input is not in the expected format" :> "str" @@ "s:_LSQB_(" :> "str" @@ "s:_RSQB_)" :> "str"
+  @@ "s:Invalid Input: This particular answer is forbidden" :> "str"
+  @@ "s:The submitted answer differs from an expected answer by a constant factor." :> "str"
+  @@ "s:Some array entries are incorrect, marked below:_NL__LCUB_error_locations_RCUB_" :> "str"
+
+(* ---- explicit "use the default" values.  Supplying such a value for an option must be the same as omitting the option:
+   the same exposed configuration (the documented default), the same construct-again equality.
+   (a) in-domain values that ARE the documented default and have a single concrete representative (None, True, False, [], {},
+       (), '', ',', 0, 1);
+   (b) in-domain empty dictionaries the documentation says are completed with defaults ("Unset keys take default values",
+       integrator_options always carries full_output);
+   (c) MARKERS: values the documentation does not list but the constructor treats as "not given" (None for the IntervalGrader
+       subgrader, None / {} as the whole configuration of an interval sampler, None for DependentSampler.depends).  For a marker
+       the documentation allows two readings -- out of domain (refused with a configuration error) or "use the default"
+       (accepted, and then exactly like omission); exposing the marker itself is neither. *)
+UnitKinds == {"none", "bool_true", "bool_false", "list_empty", "dict_empty", "tuple_empty", "str_empty", "str_comma", "int_zero", "int_one"}
+Markers(cls) ==
+  CASE cls = "IntervalGrader" -> {<<"subgrader", "none">>}
+    [] cls \in {"RealInterval", "IntegerRange"} -> {<<"_value", "none">>, <<"_value", "dict_empty">>}
+    [] cls = "DependentSampler" -> {<<"depends", "none">>}
+    [] OTHER -> {}
+CompletedDicts(cls) ==
+  CASE cls = "MatrixGrader" -> {<<"answer_shape_mismatch", "dict_empty">>}
+    [] cls = "IntegralGrader" -> {<<"integrator_options", "dict_empty">>}
+    [] OTHER -> {}
+
 \* options whose values are judged structurally (answers formats: the Canon operators and LGExpect below), not by kind
 Structural(cls) == IF cls \in {"StringGrader", "FormulaGrader", "NumericalGrader", "MatrixGrader", "SingleListGrader",
                                "IntervalGrader", "ListGrader"} THEN {"answers"} ELSE {}
@@ -335,11 +371,20 @@ Verdict(cls, opt, k) ==
   ELSE IF opt \notin DOMAIN Options[cls] THEN "out"                       \* unknown option name
   ELSE LET o == Options[cls][opt] IN
        IF k \in o.in THEN "in"
+       ELSE IF <<opt, k>> \in Markers(cls) THEN "marker"
        ELSE IF opt \in Structural(cls) \/ k \in o.skip \/ PolicySkip(o, k) THEN "skip" ELSE "out"
 
 \* kinds an option is probed with in the single-deviation sweep
 ProbeKinds(cls, opt) == LET o == Options[cls][opt] IN
                         IF opt \in Structural(cls) THEN o.in ELSE Generic \cup o.in \cup o.skip \cup o.outx
+
+Equiv(cls, opt, k) ==
+  /\ opt \in DOMAIN Options[cls]
+  /\ LET o == Options[cls][opt] IN
+     \/ <<opt, k>> \in Markers(cls)
+     \/ k \in o.in /\ <<opt, k>> \in CompletedDicts(cls)
+     \/ k \in o.in /\ k \in UnitKinds /\ o.def \in DOMAIN DefKind /\ DefKind[o.def] = k
+EquivOpts(cls, cfg) == {opt \in DOMAIN cfg : Equiv(cls, opt, cfg[opt])}
 
 MissingRequired(cls, cfg) == \E opt \in DOMAIN Options[cls] : Options[cls][opt].def = "REQUIRED" /\ opt \notin DOMAIN cfg
 
@@ -424,7 +469,9 @@ Expect(cls, cfg) ==
   IF MissingRequired(cls, cfg) \/ "out" \in vs THEN "reject"
   ELSE IF "_value" \in DOMAIN cfg /\ DOMAIN cfg # {"_value"} THEN "skip"      \* positional value and options mixed
   ELSE IF "skip" \in vs THEN "skip"
-  ELSE LET x == Cross(cls, cfg) IN IF x = "bad" THEN "reject" ELSE IF x = "skip" THEN "skip" ELSE "accept"
+  ELSE LET x == Cross(cls, cfg) IN IF x = "bad" THEN "reject" ELSE IF x = "skip" THEN "skip"
+                                    ELSE IF "marker" \in vs THEN "marker"       \* refused, or accepted exactly like omission
+                                    ELSE "accept"
 Accepts(cls, cfg) == Expect(cls, cfg) = "accept"
 
 \* documented default of every omitted option, as <<option, token>> pairs
@@ -437,9 +484,11 @@ DefaultToken(cls, cfg, opt) ==
           /\ Get(cfg, "stop") \in {"int_zero", "int_neg", "float_neg", "float_zero", "float_frac"} THEN "NOCHECK"
   ELSE IF cls \in {"RealInterval", "IntegerRange"} /\ opt = "stop" /\ Get(cfg, "start") = "int_pos" THEN "NOCHECK"
   ELSE Options[cls][opt].def
+\* (an option supplied with a "use the default" value counts as omitted)
 DefaultsOf(cls, cfg) ==
-  IF "_value" \in DOMAIN cfg THEN {}
-  ELSE {<<opt, DefaultToken(cls, cfg, opt)>> : opt \in (DOMAIN Options[cls] \ DOMAIN cfg) \ {"_value"}}
+  LET given == DOMAIN cfg \ EquivOpts(cls, cfg) IN
+  IF "_value" \in given THEN {}
+  ELSE {<<opt, DefaultToken(cls, cfg, opt)>> : opt \in (DOMAIN Options[cls] \ given) \ {"_value"}}
 
 (* ====================================================================== answers of item graders
    An answer ITEM is  [form, expect, etup, grade, msg, ok, extra]:
@@ -564,7 +613,9 @@ NestedExpect(chain) == IF \A i, j \in 1..Len(chain) : i # j => chain[i] # chain[
    case: [form ("string" | "list"), open, close (bracket symbols; "two" = a two-character string), nbounds (number of
    expressions between the brackets), curly (TRUE: opening_brackets='[({', closing_brackets='])}' instead of the defaults)]
    Documented: a string such as '[1, 2)' or a list of four entries (opening bracket, lower, upper, closing bracket);
-   brackets must be among the configured opening / closing characters. *)
+   brackets must be among the configured opening / closing characters.
+   sub: "omitted" | "none" -- the subgrader option given explicitly as its "use the default" marker (Markers above): the case
+   may then also be refused with a configuration error, otherwise it behaves exactly as with the option omitted. *)
 IntervalExpect(c) ==
   LET opens == {"lsq", "lpar"} \cup (IF c.curly THEN {"lcub"} ELSE {})
       closes == {"rsq", "rpar"} \cup (IF c.curly THEN {"rcub"} ELSE {}) IN
@@ -573,20 +624,6 @@ IntervalExpect(c) ==
   ELSE "accept"
 
 (* ====================================================================== laws about the tables (checked by TLC) *)
-\* the kind of value a default token denotes (tokens without an entry are not kind-checked)
-DefKind ==
-     "False" :> "bool_false" @@ "True" :> "bool_true" @@ "None" :> "none" @@ "n:0" :> "int_zero" @@ "n:1" :> "int_one"
-  @@ "n:2" :> "int_two" @@ "n:3" :> "int_pos" @@ "n:4" :> "int_pos" @@ "n:5" :> "int_pos" @@ "n:10" :> "int_pos"
-  @@ "n:80" :> "int_pos" @@ "n:1000" :> "int_pos" @@ "n:0.2" :> "float_frac" @@ "n:0.5" :> "float_frac"
-  @@ "n:1e-12" :> "float_frac" @@ "s:" :> "str_empty" @@ "s:," :> "str_comma" @@ "s:err" :> "enum_err"
-  @@ "pct:0.01" :> "pct_ok" @@ "pct:5" :> "pct_ok" @@ "list_empty" :> "list_empty" @@ "dict_empty" :> "dict_empty"
-  @@ "range:1:3" :> "list_int12" @@ "range:1:5" :> "list_int12" @@ "range:0:1.5708" :> "list_float2"
-  @@ "shape:3" :> "tuple_int1" @@ "shape:2,2" :> "tuple_int2" @@ "RealInterval:1:5" :> "sampler_real"
-  @@ "asm:True:type" :> "dict_asm" @@ "interval_subgrader" :> "grader_numerical" @@ "answers_empty" :> "list_empty"
-  @@ "s:Your input is not in the expected format" :> "str" @@ "s:_LSQB_(" :> "str" @@ "s:_RSQB_)" :> "str"
-  @@ "s:Invalid Input: This particular answer is forbidden" :> "str"
-  @@ "s:The submitted answer differs from an expected answer by a constant factor." :> "str"
-  @@ "s:Some array entries are incorrect, marked below:_NL__LCUB_error_locations_RCUB_" :> "str"
 \* every documented default lies in the documented domain of its option
 LawDefaultInDomain(cls, opt) ==
   LET o == Options[cls][opt] IN
